@@ -311,16 +311,17 @@ def reset_unconditional(repo, run, rule_id="C13.6"):
         run.report(rule_id, DS, st, "a re-initialisation of reset() is conditional: on the other branch the attribute keeps the value of the previous run")
 
 
-def no_inplace_on_aliases(repo, run):
+def no_inplace_on_aliases(repo, run, rule_id="C13.7", files=None):
     """reset() restores the initial step from `__dt0`, and a fresh system starts from the dt it was given: both are array OBJECTS that are handed to the integrator
     as `timestep` on every step.  In-place arithmetic (`x /= 2`) on a local that is merely another name for such an argument rewrites the caller's array --
     the system's stored step and its saved initial step -- from inside the integrator."""
-    rid = run.rule("C13.7", "in the integrators' step code an augmented assignment to a local name is applied only to a FRESH value (result of copy / arithmetic / a constant), "
+    rid = run.rule(rule_id, "in the integrators' step code an augmented assignment to a local name is applied only to a FRESH value (result of copy / arithmetic / a constant), "
                             "never to a name bound by plain assignment from another name, a parameter or a call result (which may be the caller's own array)", floor=2)
     ITY = "desolver/integrators/integrator_types.py"
     FRESH_CALLS = {"copy", "clone", "zeros", "ones", "zeros_like", "ones_like", "asarray", "array", "abs", "absolute", "sign", "minimum", "maximum", "float", "int"}
     n = 0
-    for q, fn in repo.functions(ITY):
+    for ITY in (files or [ITY, "desolver/integrators/integrator_template.py"]):
+     for q, fn in repo.functions(ITY):
         params = {a.arg for a in fn.args.posonlyargs + fn.args.args + fn.args.kwonlyargs}
         augs = [st for st in walk_no_nested(fn) if isinstance(st, ast.AugAssign) and isinstance(st.target, ast.Name)]
         for st in augs:
@@ -366,7 +367,7 @@ def no_inplace_on_aliases(repo, run):
             run.judged(rid, "%s: `%s` on a %s value" % (q, src(st), "fresh" if ok else "possibly shared"), ok=ok)
             if not ok:
                 why = "a parameter" if name in params and not defs else "bound by `%s`" % src([d for d, v in defs if not fresh(v)][0])[:70] if [d for d, v in defs if not fresh(v)] else "a parameter"
-                run.report("C13.7", ITY, st, "`%s` modifies in place a local that may be the caller's own array (%s): the step array handed in by OdeSystem is its stored `dt` "
+                run.report(rule_id, ITY, st, "`%s` modifies in place a local that may be the caller's own array (%s): the step array handed in by OdeSystem is its stored `dt` "
                                              "(and, by aliasing, the saved initial step reset() restores), so the integrator rewrites the system's initial settings" % (src(st), why))
     if n == 0:
         run.judged(rid, "no augmented assignment to a local name in the integrators", nontrivial=False)
